@@ -222,9 +222,11 @@ class CommunicationChannel:
         """
         Play out the Zero-Knowledge Proof of a given attribute hash for a peer.
         """
-        self.verification_output[attribute_hash] = [(v, None) for v in reference_values]
+        # A proof of this attribute hash that is still running refuses the request: the references its scores will be
+        # matched with must then stay the ones it was started with.
         self.attestation_overlay.verify_attestation_values(peer.address, attribute_hash, reference_values,
                                                            self.on_verification_results, id_format)
+        self.verification_output[attribute_hash] = [(v, None) for v in reference_values]
 
 
 class PseudonymFolderManager:
